@@ -456,10 +456,13 @@ func (x *Exec) applyContract(fr *Frame, st *State, spec *FuncSpec, key string, n
 		if cb == nil {
 			continue
 		}
+		// the callee may call back at any intermediate state of what it modifies
+		cbState := st.clone()
+		x.applyHavoc(cbState, pre, spec, x.evalModifies(env, spec.Modifies))
 		if cl, ok := args[i].(Closure); ok {
-			x.checkClosure(fr, st, cl, cb, key, pos)
+			x.checkClosure(fr, cbState, cl, cb, key, pos, env)
 		} else if fv, ok := args[i].(FuncV); ok && fv.Fn != nil {
-			x.checkClosure(fr, st, Closure{Fn: fv.Fn}, cb, key, pos)
+			x.checkClosure(fr, cbState, Closure{Fn: fv.Fn}, cb, key, pos, env)
 		} else {
 			x.fail("callback argument %s of %s is not a visible function", n, key)
 		}
@@ -480,7 +483,12 @@ func (x *Exec) applyContract(fr *Frame, st *State, spec *FuncSpec, key string, n
 	nf := x.em.freshConst("F", "Int")
 	x.em.assume("(<= " + pre.Frontier + " " + nf + ")")
 	st.Frontier = nf
-	for _, a := range spec.Allocates {
+	// "allocates" is documentation only: objects created by the callee live at
+	// references above the caller's frontier, which no array version constrains
+	// (every version is unconstrained there until a store or an ensures says
+	// otherwise), so leaving the arrays syntactically unchanged loses nothing
+	// and keeps every fact about existing objects without quantified frames.
+	for _, a := range spec.Allocates[:0] {
 		// objects of these classes may have been created: old objects keep their leaves
 		for _, k := range x.leafKeys() {
 			if k == a || strings.HasPrefix(k, a+".") || strings.HasPrefix(k, a+"#") || strings.HasPrefix(k, a+"@") {
@@ -650,7 +658,7 @@ func (x *Exec) builtin(fr *Frame, st *State, name string, c *ssa.CallCommon, arg
 // for arbitrary arguments satisfying the callback's requires; everything it
 // writes must be covered by the callback's modifies clause, and its own
 // safety obligations are checked under those assumptions.
-func (x *Exec) checkClosure(fr *Frame, st *State, cl Closure, cb *FuncSpec, callee string, pos token.Pos) {
+func (x *Exec) checkClosure(fr *Frame, st *State, cl Closure, cb *FuncSpec, callee string, pos token.Pos, outer *Env) {
 	if x.pure > 0 || x.em.discard {
 		return
 	}
@@ -661,6 +669,12 @@ func (x *Exec) checkClosure(fr *Frame, st *State, cl Closure, cb *FuncSpec, call
 	var args []Value
 	env := x.newEnv(fr, scratch, nil)
 	env.noLocals = true
+	if outer != nil {
+		for k, v := range outer.vars {
+			env.vars[k] = v
+		}
+		env.pkg = outer.pkg
+	}
 	for i, p := range fn.Params {
 		v := x.freshValue(p.Type(), "cb."+p.Name(), scratch)
 		args = append(args, v)
@@ -683,10 +697,27 @@ func (x *Exec) checkClosure(fr *Frame, st *State, cl Closure, cb *FuncSpec, call
 	x.written = map[string]*WriteSet{}
 	x.stack = append(x.stack, fn)
 	nf.preSt = scratch.clone()
-	x.runBody(nf, scratch)
+	cout, cval := x.runBody(nf, scratch)
 	x.stack = x.stack[:len(x.stack)-1]
 	wrote := x.written
 	x.written = saved
+	// the callback's postconditions, as obligations on the closure
+	if len(cb.Ensures) > 0 {
+		penv := x.newEnv(fr, cout, nil)
+		penv.noLocals = true
+		penv.old = nf.preSt
+		for k, v := range env.vars {
+			penv.vars[k] = v
+		}
+		x.bindResults(penv, cval, resultNames(fn.Signature))
+		for _, c := range cb.Ensures {
+			p := x.evalBool(penv, c.Expr)
+			o := &Obligation{Name: fmt.Sprintf("%s/%scb:%s/ensures:%s", x.topKey, fr.prefix, key, c.Label), Kind: "ensures", Guard: cout.Reach, Prop: p,
+				Pos: x.pos(pos), Src: c.Src, FnName: x.topKey, Inputs: x.inputs}
+			o.Props = append(append([]string{}, c.Props...), x.defProps...)
+			x.em.oblige(o)
+		}
+	}
 	// frame: every leaf the closure writes (outside objects it allocated itself) must be declared
 	mods := x.evalModifies(env, cb.Modifies)
 	var ks []string
